@@ -63,6 +63,15 @@ fn nats_str(l: &[u32]) -> String {
     }
 }
 
+fn head_str(pn: u32) -> String {
+    // FREELIST_EMPTY
+    if pn == 0 {
+        "-".into()
+    } else {
+        pn.to_string()
+    }
+}
+
 fn level_str(l: &[(Key, u32)]) -> String {
     if l.is_empty() {
         return "-".into();
@@ -569,6 +578,7 @@ fn round(
     batch: &[(Key, Option<Vec<u8>>)],
     workers: usize,
     line: bool,
+    pool: &mut (BTreeSet<u32>, BTreeSet<u32>),
     out: &mut Sink,
     what: &str,
 ) -> Option<RoundRes> {
@@ -654,18 +664,23 @@ fn round(
                 .collect::<Vec<_>>()
                 .join(";")
         };
-        let cache: Vec<u32> = after.leaves.iter().filter(|l| l.1 >= ln_bump && l.3).map(|l| l.1).collect();
+        let old_leaf_pns: BTreeSet<u32> = before.leaves.iter().map(|l| l.1).collect();
+        let cache: Vec<u32> = after.leaves.iter().filter(|l| !old_leaf_pns.contains(&l.1) && l.3).map(|l| l.1).collect();
         out.line(
             op,
             format!(
-                "lcs={} lnfreed={} bbnfreed={} io={} idx={} leaves={} cache={}",
+                "lcs={} lnfreed={} bbnfreed={} io={} idx={} leaves={} cache={} sync={}/{}/{}/{}",
                 cs_str(&rec.leaf_changeset),
                 nats_str(&rec.ln_freed),
                 nats_str(&rec.bbn_freed),
                 rec.leaf_submitted_io + rec.branch_submitted_io,
                 idx,
                 leaves,
-                nats_str(&cache)
+                nats_str(&cache),
+                upd.ln_bump,
+                head_str(upd.ln_freelist_pn),
+                upd.bbn_bump,
+                head_str(upd.bbn_freelist_pn)
             ),
         );
         out.count("update_lines");
@@ -711,10 +726,12 @@ fn round(
     // C19: pages
     let (old_ln, old_bbn) = all_pages(&before);
     let (new_ln, new_bbn) = all_pages(&after);
-    for (name, old, new, freed, lo, hi) in [
-        ("ln", &old_ln, &new_ln, &rec.ln_freed, ln_bump, upd.ln_bump),
-        ("bbn", &old_bbn, &new_bbn, &rec.bbn_freed, bbn_bump, upd.bbn_bump),
+    let (pool_ln, pool_bbn) = (&mut pool.0, &mut pool.1);
+    for (name, old, new, freed, lo, hi, pool) in [
+        ("ln", &old_ln, &new_ln, &rec.ln_freed, ln_bump, upd.ln_bump, pool_ln),
+        ("bbn", &old_bbn, &new_bbn, &rec.bbn_freed, bbn_bump, upd.bbn_bump, pool_bbn),
     ] {
+        // `pool`: the pages released in EARLIER rounds (they are on the free list: this round may hand them out again)
         let mut seen = BTreeSet::new();
         for p in freed {
             if !seen.insert(*p) {
@@ -723,7 +740,7 @@ fn round(
             if new.contains(p) {
                 out.fail(format!("C19 {what}: {name} page {p} released although the new tree references it"));
             }
-            if !old.contains(p) && !(*p >= lo && *p < hi) {
+            if !old.contains(p) && !(*p >= lo && *p < hi) && !pool.contains(p) {
                 out.fail(format!("C19 {what}: {name} page {p} released but neither old nor allocated by this update"));
             }
         }
@@ -733,20 +750,34 @@ fn round(
             }
         }
         for p in new {
-            if !old.contains(p) && !(*p >= lo && *p < hi) {
-                out.fail(format!("C19 {what}: new {name} page {p} was not allocated by this update"));
+            if !old.contains(p) {
+                if seen.contains(p) {
+                    out.fail(format!("C19 {what}: {name} page {p} released in this round is handed out in the same round"));
+                } else if pool.contains(p) {
+                    out.count(&format!("{name}_pages_reused_from_free_list"));
+                } else if !(*p >= lo && *p < hi) {
+                    out.fail(format!("C19 {what}: new {name} page {p} was neither allocated at the frontier nor on the free list"));
+                }
             }
         }
         // allocated pages: referenced, released, or free-list pages (at most one per 1000 released + 1)
         let unaccounted = (lo..hi).filter(|p| !new.contains(p) && !seen.contains(p)).count();
-        if unaccounted > freed.len() / 1000 + 1 {
+        if unaccounted > (freed.len() + pool.len()) / 1000 + 2 {
             out.fail(format!("C19 {what}: {unaccounted} allocated {name} pages are neither referenced nor released"));
         }
-        out.add(&format!("{name}_allocated"), (hi - lo) as u64);
+        out.add(&format!("{name}_allocated_at_frontier"), (hi - lo) as u64);
+        // the pool after this round: what was handed out leaves it, what was released enters it — and so do the pages
+        // the free list took for itself (a free-list page returns to the list when it is emptied)
+        for p in new {
+            pool.remove(p);
+        }
+        pool.extend(freed.iter().cloned());
+        pool.extend((lo..hi).filter(|p| !new.contains(p) && !seen.contains(p)));
     }
     // C10: the leaf cache
+    let old_leaf_pns2: BTreeSet<u32> = before.leaves.iter().map(|l| l.1).collect();
     for (_, pn, _, cached) in &after.leaves {
-        if *pn >= ln_bump && !cached {
+        if !old_leaf_pns2.contains(pn) && !cached {
             out.fail(format!("C10 {what}: new leaf {pn} is not in the leaf cache after PostIoWork"));
         }
     }
@@ -772,9 +803,15 @@ fn update_case(ctx: &Ctx, rng: &mut Rng, case: usize, directed: Option<usize>, o
     out.add("leaves_cached_before", cached.len() as u64);
     out.add("leaves_on_disk_only_before", (leaves.len() - cached.len()) as u64);
     let mut sim = make_sim(ctx, &leaves, fanout, &cached, "w1");
-    let mut sims_multi: Vec<(usize, sg::UpdateSim, BTreeMap<Key, Vec<u8>>)> = Vec::new();
+    type Pool = (BTreeSet<u32>, BTreeSet<u32>);
+    let mut pool1: Pool = Default::default();
+    let mut sims_multi: Vec<(usize, sg::UpdateSim, BTreeMap<Key, Vec<u8>>, Pool)> = Vec::new();
     for w in [2usize, 3] {
-        sims_multi.push((w, make_sim(ctx, &leaves, fanout, &cached, &format!("w{w}")), BTreeMap::new()));
+        sims_multi.push((w, make_sim(ctx, &leaves, fanout, &cached, &format!("w{w}")), BTreeMap::new(), Default::default()));
+    }
+    {
+        let (lb, bb) = sim.bumps();
+        out.line(format!("stores {lb} {bb}"), "ok".into());
     }
     let mut model: BTreeMap<Key, Vec<u8>> = BTreeMap::new();
     for (_, _, entries) in &leaves {
@@ -782,10 +819,10 @@ fn update_case(ctx: &Ctx, rng: &mut Rng, case: usize, directed: Option<usize>, o
             model.insert(*k, v.clone());
         }
     }
-    for (_, _, m) in sims_multi.iter_mut() {
+    for (_, _, m, _) in sims_multi.iter_mut() {
         *m = model.clone();
     }
-    let rounds = if directed == Some(3) { 3 } else { rng.range(2, 3) };
+    let rounds = if directed == Some(3) { 3 } else { rng.range(2, 4) };
     for r in 0..rounds {
         let what = format!("case {case} round {r}");
         out.mark_case(format!("stageglue seed-case {case} round {r} directed {:?}", directed));
@@ -893,11 +930,11 @@ fn update_case(ctx: &Ctx, rng: &mut Rng, case: usize, directed: Option<usize>, o
         if batch.iter().any(|(_, v)| v.as_ref().map_or(false, |v| v.len() > 1332)) {
             out.count("batch_with_overflow_insert");
         }
-        let r1 = round(ctx, &mut sim, &mut model, &batch, 1, true, out, &what);
+        let r1 = round(ctx, &mut sim, &mut model, &batch, 1, true, &mut pool1, out, &what);
         let Some(r1) = r1 else { return };
-        for (w, s, m) in sims_multi.iter_mut() {
+        for (w, s, m, pl) in sims_multi.iter_mut() {
             let what = format!("{what} ({w} workers)");
-            if let Some(rw) = round(ctx, s, m, &batch, *w, false, out, &what) {
+            if let Some(rw) = round(ctx, s, m, &batch, *w, false, pl, out, &what) {
                 out.count("multiworker_rounds");
                 if rw.content != r1.content {
                     out.fail(format!("C13 {what}: content differs from the one-worker run"));
